@@ -40,6 +40,7 @@ def copy_env(func_node):
     counts = {}
     defs = {}
     banned = set()
+    stored_paths = set()
     args = func_node.args
     for arg in args.posonlyargs + args.args + args.kwonlyargs:
         banned.add(arg.arg)
@@ -85,6 +86,7 @@ def copy_env(func_node):
         # a local that is mutated in place is not a value to propagate
         if isinstance(node, (ast.Subscript, ast.Attribute)) and \
                 isinstance(node.ctx, (ast.Store, ast.Del)):
+            stored_paths.add(txt(node))
             base = node.value
             while isinstance(base, (ast.Subscript, ast.Attribute)):
                 base = base.value
@@ -114,6 +116,12 @@ def copy_env(func_node):
             # effects are all accepted; a definition mentioning the name
             # itself is not
             if name in mentions(val):
+                continue
+            # a snapshot of a field that the function also assigns
+            # (x = o.f ... o.f = v) is not the field any more
+            if stored_paths and any(
+                    isinstance(sub, (ast.Subscript, ast.Attribute)) and
+                    txt(sub) in stored_paths for sub in ast.walk(val)):
                 continue
             out[name] = val
     return out
